@@ -1585,14 +1585,16 @@ impl DtlsInner {
         handshake_msg.encode(&mut buf);
         ctx.handshake_messages.extend_from_slice(&buf);
 
-        self.send_handshake_message(
+        // ClientKeyExchange opens the client's second flight; it is kept with
+        // ChangeCipherSpec and Finished so that a retransmission of the flight
+        // carries all three (RFC 6347 §4.2.4).
+        let cke_record = self.build_handshake_record(
             handshake_msg,
             ctx.epoch,
             &mut ctx.sequence_number,
             None,
             is_client,
-        )
-        .await?;
+        )?;
         ctx.message_seq += 1;
 
         // Compute shared secret
@@ -1655,7 +1657,7 @@ impl DtlsInner {
         ctx.session_crypto = Some(create_session_crypto(keys.clone())?);
         ctx.session_keys = Some(keys);
 
-        let mut flight_records: Vec<Vec<u8>> = Vec::new();
+        let mut flight_records: Vec<Vec<u8>> = vec![cke_record];
 
         // Send ChangeCipherSpec
         let record = DtlsRecord {
